@@ -188,6 +188,8 @@ func shapeClass(s string) string {
 
 func init() {
 	core.Register("c01load", &core.CheckDef{Real: realC01Load, Judge: judgeC01Load, Timeout: 10 * time.Second})
+	// same oracle, shorter watchdog: the reference-cycle stream contains inputs that are known not to return
+	core.Register("c01cycle", &core.CheckDef{Real: realC01Load, Judge: judgeC01Load, Timeout: 5 * time.Second})
 	core.RegisterProp("C01", runC01)
 }
 
@@ -331,7 +333,7 @@ func runC01(ctx *core.Ctx) {
 
 	// 0. the valid base set must load (sanity of the generators), in all three entry points
 	for _, mode := range []string{"", "model", "cli"} {
-		for _, pos := range []string{"single", "override", "extending", "include"} {
+		for _, pos := range []string{"single", "override", "include"} {
 			if req := c01Positioned(pos, rich, rich); req != nil {
 				ctx.Count("valid-base")
 				ctx.Add("c01load", c01Args{Req: *req, Mode: mode, Shape: "valid/" + pos, Expect: "ok"})
@@ -339,45 +341,91 @@ func runC01(ctx *core.Ctx) {
 		}
 	}
 
-	c01Cycles(ctx)
-	c01Missing(ctx)
-	c01Models(ctx) // stage-level correspondence (c01_models.go)
-	c01Kinds(ctx, sch, rich)
-	c01OptionLattice(ctx, sch, rich)
-	c01Bytes(ctx, rich)
+	only := os.Getenv("VERIF_C01_ONLY") // development aid: run one family of streams
+	if only == "" || only == "models" {
+		c01Models(ctx) // stage-level correspondence (c01_models.go)
+	}
+	if only == "" || only == "oracle" {
+		c01Cycles(ctx)
+		c01Missing(ctx)
+		c01Kinds(ctx, sch, rich)
+		c01OptionLattice(ctx, sch, rich)
+		c01Bytes(ctx, rich)
+	}
 }
+
+// the node kinds of the property with every representative value the shared KindValue can draw
+var c01KindValues = []struct {
+	kind string
+	vals []any
+}{
+	{"null", []any{nil}},
+	{"bool", []any{true, false}},
+	{"int", []any{0, 1, -1, 42, 65536}},
+	{"float", []any{0.5, 1.5, -2.25}},
+	{"string", []any{"", "x", "a=b", "1", "true", "./p", "a:b:c", "${V}"}},
+	{"emptyList", []any{L{}}},
+	{"list", []any{L{"a", "b=c", 1}}},
+	{"listOfMaps", []any{L{M{"k": "v"}, M{"target": "/t", "source": "s"}}}},
+	{"emptyMap", []any{M{}}},
+	{"map", []any{M{"k": "v", "n": 1}}},
+}
+
+// option sets tried systematically on every (path, kind, position): default, no schema validation,
+// and no schema validation with the late stages switched off one by one (so that each stage sees unvalidated input)
+var c01OptionSets = []int{0, 1, 1 | 4 | 16, 1 | 32 | 64 | 256}
 
 // (attribute path × node kind × position)
 func c01Kinds(ctx *core.Ctx, sch *c01Schema, rich M) {
 	paths := sch.paths(9)
 	ctx.Note("schema attribute paths enumerated: %d", len(paths))
 	full := ctx.Thorough()
+	add := func(p c01Path, kind string, v any, pos string, bits int) {
+		doc := sch.place(p, v)
+		req := c01Positioned(pos, doc, rich)
+		if req == nil {
+			return
+		}
+		applyOptionBits(req, bits)
+		mode := ""
+		switch ctx.Rng.Intn(12) {
+		case 0:
+			mode = "model"
+		case 1:
+			mode = "cli"
+		}
+		ctx.Count("kind-" + kind)
+		ctx.Count("pos-" + pos)
+		ctx.Count(fmt.Sprintf("optset-%d", bits))
+		ctx.Add("c01load", c01Args{Req: *req, Mode: mode, Shape: "kind/" + pos + "/" + p.String() + "/" + kind})
+	}
 	for _, p := range paths {
-		for _, kind := range core.Kinds {
-			for _, pos := range c01Positions {
-				// quick tier: every path × kind once (position drawn at random) + 1/8 of the remaining product
-				if !full && ctx.Rng.Intn(len(c01Positions)) != 0 {
+		for _, kv := range c01KindValues {
+			for pi, pos := range c01Positions {
+				if full {
+					// thorough: the whole product; every value variant in the single and override positions
+					vals := kv.vals
+					sets := c01OptionSets
+					if pi >= 2 {
+						vals = []any{kv.vals[ctx.Rng.Intn(len(kv.vals))]}
+						sets = c01OptionSets[:2]
+					}
+					for _, v := range vals {
+						for _, bits := range sets {
+							add(p, kv.kind, v, pos, bits)
+						}
+					}
 					continue
 				}
-				doc := sch.place(p, core.KindValue(kind, ctx.Rng))
-				req := c01Positioned(pos, doc, rich)
-				if req == nil {
+				// quick: every path × kind about once (position and option set drawn at random)
+				if ctx.Rng.Intn(len(c01Positions)) != 0 {
 					continue
 				}
-				mode := ""
-				switch ctx.Rng.Intn(12) {
-				case 0:
-					mode = "model"
-				case 1:
-					mode = "cli"
+				bits := c01OptionSets[ctx.Rng.Intn(len(c01OptionSets))]
+				if ctx.Rng.Intn(8) == 0 {
+					bits = ctx.Rng.Intn(1024)
 				}
-				// one case in four under a random option set
-				if ctx.Rng.Intn(4) == 0 {
-					applyOptionBits(req, ctx.Rng.Intn(1024))
-				}
-				ctx.Count("kind-" + kind)
-				ctx.Count("pos-" + pos)
-				ctx.Add("c01load", c01Args{Req: *req, Mode: mode, Shape: "kind/" + pos + "/" + p.String() + "/" + kind})
+				add(p, kv.kind, kv.vals[ctx.Rng.Intn(len(kv.vals))], pos, bits)
 			}
 		}
 	}
@@ -492,7 +540,7 @@ func c01Cycles(ctx *core.Ctx) {
 				continue // the dependency graph only exists once the model is bound to a project
 			}
 			ctx.Count("cycle-" + c.kind)
-			ctx.Add("c01load", c01Args{Req: core.LoadReq{Files: c.files, ConfigFiles: cfg, ProjectName: "p"}, Mode: mode,
+			ctx.Add("c01cycle", c01Args{Req: core.LoadReq{Files: c.files, ConfigFiles: cfg, ProjectName: "p"}, Mode: mode,
 				Shape: "cycle/" + c.name, Expect: "cycle:" + c.kind})
 		}
 	}
@@ -517,11 +565,11 @@ func c01Cycles(ctx *core.Ctx) {
 			files[name] = fmt.Sprintf("include:\n  - %s\nservices:\n  s%d:\n    image: i\n", nextName, i)
 		}
 		ctx.Count("cycle-extends")
-		ctx.Add("c01load", c01Args{Req: core.LoadReq{Files: one(ext.String()), ConfigFiles: []string{"compose.yml"}, ProjectName: "p"}, Shape: fmt.Sprintf("cycle/extends-ring-%d", n), Expect: "cycle:extends"})
+		ctx.Add("c01cycle", c01Args{Req: core.LoadReq{Files: one(ext.String()), ConfigFiles: []string{"compose.yml"}, ProjectName: "p"}, Shape: fmt.Sprintf("cycle/extends-ring-%d", n), Expect: "cycle:extends"})
 		ctx.Count("cycle-depends_on")
-		ctx.Add("c01load", c01Args{Req: core.LoadReq{Files: one(dep.String()), ConfigFiles: []string{"compose.yml"}, ProjectName: "p"}, Shape: fmt.Sprintf("cycle/depends-ring-%d", n), Expect: "cycle:depends_on"})
+		ctx.Add("c01cycle", c01Args{Req: core.LoadReq{Files: one(dep.String()), ConfigFiles: []string{"compose.yml"}, ProjectName: "p"}, Shape: fmt.Sprintf("cycle/depends-ring-%d", n), Expect: "cycle:depends_on"})
 		ctx.Count("cycle-include")
-		ctx.Add("c01load", c01Args{Req: core.LoadReq{Files: files, ConfigFiles: []string{"compose.yml"}, ProjectName: "p"}, Shape: fmt.Sprintf("cycle/include-ring-%d", n), Expect: "cycle:include"})
+		ctx.Add("c01cycle", c01Args{Req: core.LoadReq{Files: files, ConfigFiles: []string{"compose.yml"}, ProjectName: "p"}, Shape: fmt.Sprintf("cycle/include-ring-%d", n), Expect: "cycle:include"})
 	}
 }
 
@@ -689,7 +737,7 @@ func c01Bytes(ctx *core.Ctx, rich M) {
 	}
 	sort.Strings(seeds)
 	ctx.Note("byte-mutation seeds: %d documents", len(seeds))
-	for i := 0; i < ctx.Pick(4000, 120000); i++ {
+	for i := 0; i < ctx.Pick(3000, 60000); i++ {
 		s := c01Mutate(ctx, seeds[ctx.Rng.Intn(len(seeds))])
 		req := core.LoadReq{Files: map[string]string{"compose.yml": s}, ConfigFiles: []string{"compose.yml"}, ProjectName: "p"}
 		if ctx.Rng.Intn(3) == 0 { // as an override of a valid base
